@@ -62,7 +62,7 @@ def oracle(ctx, case, res, real):
         outs = {i: r for i, r in enumerate(recs_in_order)}
     nrc = 0
     for ri, (name, s, q) in enumerate(case["reads1"]):
-        cutter = AdapterCutter(ads, args.times, action, False)
+        cutter = AdapterCutter(ads, args.times, action, args.index)
         fwd, fm = cutter.match_and_trim(dnaio.SequenceRecord(name, s, q))
         rev, rm = cutter.match_and_trim(dnaio.SequenceRecord(name, s, q).reverse_complement())
         fs, rsc = sum(m.score for m in fm), sum(m.score for m in rm)
